@@ -134,6 +134,11 @@ func (p *patch) adaptToShapeFunc(funcName string) {
 
 // unsafePatchPtr 不做类型检查
 func (p *patch) unsafePatchPtr() error {
+	// Ptr/PtrTrampoline arrive here without passing unsafePatchValue: a replacement that is not a function
+	// (e.g. &fn, whose Pointer() is the address of the variable) must be refused here as well
+	if p.replacementValue.Kind() != reflect.Func {
+		return errors.New("replacementValue has to be a ExportFunc")
+	}
 	replacementPointer := p.replacementValue.Pointer()
 	p.replacementPtr = replacementPointer
 	if p.trampoline != nil {
